@@ -15,6 +15,7 @@ import (
 	"github.com/charmbracelet/log"
 
 	"github.com/flamego/flamego"
+	"github.com/flamego/flamego/inject"
 	sched "github.com/flamego/flamego/internal/verifsched"
 )
 
@@ -160,6 +161,8 @@ func (w *world) serve(t, k int) {
 	fmt.Fprintf(&w.notes[t][k], "RESPONSE status=%d body=%q headers=%v", sp.code, body, hk)
 }
 
+type parentService struct{ name string }
+
 type scenario struct {
 	Name    string
 	Threads int
@@ -260,6 +263,18 @@ var scenarios = []scenario{
 				return 210 + t, fmt.Sprintf("body of thread %d", t)
 			})
 		}
+		return w
+	}},
+	{Name: "services-inherited-from-a-parent-injector", Build: func(n int) *world {
+		w := newWorld(planFor(n, func(t int) []reqSpec { return []reqSpec{{"GET", fmt.Sprintf("/svc/%d", t), nil}} }))
+		base := inject.New()
+		base.Map(&parentService{name: "from-the-parent"})
+		w.f.SetParent(base)
+		w.f.Get("/svc/{id}", func(c flamego.Context, s *parentService) string {
+			sched.Point()
+			w.own(c)
+			return s.name + " " + c.Param("id")
+		})
 		return w
 	}},
 	{Name: "header-constrained", Build: func(n int) *world {
